@@ -782,3 +782,217 @@ Proof.
   pose proof (N.mod_lt s 4294967296 ltac:(discriminate)) as M2.
   rewrite Heq in D1. nia.
 Qed.
+
+(* ================================================================ the length prefix *)
+(* the value of a uvarint without shift and accumulator *)
+Fixpoint uvv (n : nat) (bs : list N) : option (N * list N) :=
+  match n with
+  | O => None
+  | S n' =>
+      match bs with
+      | [] => None
+      | b :: r =>
+          if b <? 128 then (if Nat.eqb n' 0 && (1 <? b) then None else Some (b, r))
+          else match uvv n' r with Some (v, r') => Some ((b - 128) + 128 * v, r') | None => None end
+      end
+  end.
+
+Lemma uv_dec_aux_uvv : forall n s acc w,
+  uv_dec_aux n s acc w = match uvv n w with Some (v, r) => Some (acc + v * 2 ^ s, r) | None => None end.
+Proof.
+  induction n as [|n IH]; intros s acc w; [reflexivity|].
+  destruct w as [|b r]; [reflexivity|]. cbn [uv_dec_aux uvv].
+  destruct (b <? 128) eqn:E.
+  - destruct (Nat.eqb n 0 && (1 <? b)); reflexivity.
+  - rewrite IH. destruct (uvv n r) as [[v r']|]; [|reflexivity].
+    f_equal. f_equal. rewrite N.pow_add_r. change (2 ^ 7) with 128. lia.
+Qed.
+
+Lemma uvv_len : forall n w v r, uvv n w = Some (v, r) -> (length r < length w)%nat.
+Proof.
+  induction n as [|n IH]; intros w v r H; [discriminate|].
+  destruct w as [|b t]; [discriminate|]. cbn [uvv] in H.
+  destruct (b <? 128).
+  - destruct (Nat.eqb n 0 && (1 <? b)); [discriminate|]. inversion H; subst. simpl. lia.
+  - destruct (uvv n t) as [[v' r']|] eqn:E; [|discriminate]. inversion H; subst.
+    specialize (IH _ _ _ E). simpl. lia.
+Qed.
+
+(* same value and same number of consumed bytes => same bytes *)
+Lemma uvv_inj : forall n w1 w2 v r1 r2,
+  bytes_ok w1 -> bytes_ok w2 ->
+  uvv n w1 = Some (v, r1) -> uvv n w2 = Some (v, r2) ->
+  (length w1 - length r1 = length w2 - length r2)%nat ->
+  firstn (length w1 - length r1) w1 = firstn (length w1 - length r1) w2.
+Proof.
+  induction n as [|n IH]; intros w1 w2 v r1 r2 H1 H2 E1 E2 Hk; [discriminate|].
+  destruct w1 as [|b1 t1]; [discriminate|]. destruct w2 as [|b2 t2]; [discriminate|].
+  inversion H1 as [|? ? Hb1 H1']; subst. inversion H2 as [|? ? Hb2 H2']; subst.
+  unfold byte_ok in *. cbn [uvv] in E1, E2.
+  destruct (b1 <? 128) eqn:L1; destruct (b2 <? 128) eqn:L2.
+  - destruct (Nat.eqb n 0 && (1 <? b1)); [discriminate|].
+    destruct (Nat.eqb n 0 && (1 <? b2)); [discriminate|].
+    inversion E1; inversion E2; subst. subst.
+    match goal with |- firstn ?k _ = firstn ?k _ => replace k with 1%nat by (simpl length; lia) end. reflexivity.
+  - destruct (Nat.eqb n 0 && (1 <? b1)); [discriminate|]. inversion E1; subst.
+    destruct (uvv n t2) as [[v2 r2']|] eqn:U2; [|discriminate]. inversion E2; subst.
+    pose proof (uvv_len _ _ _ _ U2). simpl length in *. lia.
+  - destruct (Nat.eqb n 0 && (1 <? b2)); [discriminate|]. inversion E2; subst.
+    destruct (uvv n t1) as [[v1 r1']|] eqn:U1; [|discriminate]. inversion E1; subst.
+    pose proof (uvv_len _ _ _ _ U1). simpl length in *. lia.
+  - destruct (uvv n t1) as [[v1 r1']|] eqn:U1; [|discriminate].
+    destruct (uvv n t2) as [[v2 r2']|] eqn:U2; [|discriminate].
+    assert (A1 : b1 - 128 + 128 * v1 = v) by congruence. assert (A2 : r1' = r1) by congruence.
+    assert (B1 : b2 - 128 + 128 * v2 = v) by congruence. assert (B2 : r2' = r2) by congruence.
+    subst r1' r2'. clear E1 E2.
+    apply N.ltb_ge in L1, L2.
+    assert (b1 = b2 /\ v1 = v2) as [-> ->] by lia.
+    pose proof (uvv_len _ _ _ _ U1) as Q1. pose proof (uvv_len _ _ _ _ U2) as Q2.
+    simpl length in *.
+    replace (S (length t1) - length r1)%nat with (S (length t1 - length r1)) by lia.
+    cbn [firstn]. f_equal.
+    apply (IH t1 t2 v2 r1 r2 H1' H2' U1 U2). lia.
+Qed.
+
+Lemma firstn_nth_eq : forall (k : nat) (a b : list N) pos, firstn k a = firstn k b -> (pos < k)%nat -> nth pos a 0 = nth pos b 0.
+Proof.
+  induction k as [|k IH]; intros a b pos H Hp; [lia|].
+  destruct a as [|x a], b as [|y b]; simpl in H; try discriminate; auto.
+  inversion H; subst. destruct pos; simpl; auto. apply IH; [assumption|lia].
+Qed.
+
+Lemma nth_firstn_lt : forall (k : nat) (l : list N) pos, (pos < k)%nat -> nth pos (firstn k l) 0 = nth pos l 0.
+Proof.
+  induction k as [|k IH]; intros l pos H; [lia|].
+  destruct l as [|x l]; [destruct pos; reflexivity|]. destruct pos; simpl; auto. apply IH. lia.
+Qed.
+
+Lemma nth_alter_same : forall l pos b, (pos < length l)%nat -> nth pos (alter pos b l) 0 = b.
+Proof.
+  induction l as [|x l IH]; intros pos b H; [simpl in H; lia|].
+  destruct pos; simpl; auto. apply IH. simpl in H. lia.
+Qed.
+
+Lemma firstn_alter : forall k l pos b, firstn k (alter pos b l) = alter pos b (firstn k l).
+Proof.
+  induction k as [|k IH]; intros l pos b.
+  - destruct l, pos; reflexivity.
+  - destruct l as [|x l]; [destruct pos; reflexivity|]. destruct pos; simpl; [reflexivity|]. rewrite IH. reflexivity.
+Qed.
+
+Lemma firstn_bytes_ok k l : bytes_ok l -> bytes_ok (firstn k l).
+Proof. unfold bytes_ok. revert l; induction k; intros [|x l] H; simpl; try constructor; inversion H; auto. Qed.
+
+Section Prefix.
+Variable crc : list N -> N.
+
+(* Altering a byte of the length prefix: whatever the reader then returns as data comes from a
+   DIFFERENT record extent (another length or another start) — it never re-reads the original
+   extent.  (That the checksum over the other extent then matches the four bytes behind it is a
+   2^-32 coincidence which no single-byte property of the CRC excludes; hence `_partial`.) *)
+Lemma framed_at_alter_prefix extra body p s pos b d :
+  extra <= blen body -> blen body - extra < two35 -> bytes_ok body -> bytes_ok s -> b < 256 ->
+  let pre := put_uvarint (blen body - extra) in
+  (pos < length pre)%nat -> nth pos pre 0 <> b ->
+  let file' := alter (length p + pos) b (p ++ frame crc extra body ++ s) in
+  framed_at crc extra file' (blen p) = ROk d ->
+  exists l' n', uvarint5 file' (blen p) = Some (l', n') /\ (l', n') <> (blen body - extra, blen pre).
+Proof.
+  intros He Hl Hbody Hs Hb pre Hpos Hne file' Hd.
+  unfold framed_at in Hd.
+  destruct (blen file' <? blen p + 5) eqn:E5; [discriminate|].
+  destruct (uvarint5 file' (blen p)) as [[l' n']|] eqn:EU; [|discriminate].
+  exists l', n'. split; [reflexivity|]. intro Heq. inversion Heq; subst l' n'. clear Heq Hd.
+  (* the two 5 byte windows *)
+  set (rest := body ++ put_be32 (crc body) ++ s).
+  assert (Hfile : p ++ frame crc extra body ++ s = p ++ (pre ++ rest))
+    by (unfold frame, rest; fold pre; rewrite <- !app_assoc; reflexivity).
+  assert (Hpl : (1 <= length pre <= 5)%nat) by (apply put_uvarint_len5; exact Hl).
+  assert (Hlen5 : (5 <= length (pre ++ rest))%nat).
+  { apply N.ltb_ge in E5. unfold file' in E5. unfold blen in E5. rewrite alter_length, Hfile, app_length in E5.
+    set (q := length (pre ++ rest)) in *. clearbody q. lia. }
+  assert (Hf' : file' = p ++ alter pos b (pre ++ rest)).
+  { unfold file'. rewrite Hfile. apply alter_app_r. }
+  unfold uvarint5, sub in EU. rewrite Hf', skipn_blen_app in EU. change (N.to_nat 5) with 5%nat in EU.
+  rewrite firstn_alter in EU.
+  set (w := firstn 5 (pre ++ rest)) in *.
+  assert (Hw : get_uvarint w = Some (blen body - extra, firstn (5 - length pre) rest)).
+  { unfold w. rewrite firstn_app. rewrite firstn_all2 by lia. unfold pre.
+    apply get_put_uvarint. unfold u64_ok, two64N, two35 in *. lia. }
+  assert (Hwlen : length w = 5%nat) by (unfold w; rewrite firstn_length; lia).
+  assert (Hwok : bytes_ok w).
+  { unfold w. apply firstn_bytes_ok. unfold bytes_ok, rest. rewrite !Forall_app. repeat split.
+    - apply put_uvarint_bytes_ok. - exact Hbody. - apply be_enc_bytes_ok. - exact Hs. }
+  destruct (get_uvarint (alter pos b w)) as [[x r']|] eqn:EW; [|discriminate].
+  assert (Hx : x = blen body - extra) by congruence.
+  assert (Hn : 5 - blen r' = blen pre) by congruence. subst x. clear EU.
+  unfold get_uvarint in Hw, EW. rewrite uv_dec_aux_uvv in Hw, EW.
+  destruct (uvv 10 w) as [[v1 r1]|] eqn:U1; [|discriminate].
+  destruct (uvv 10 (alter pos b w)) as [[v2 r2]|] eqn:U2; [|discriminate].
+  change (2 ^ 0) with 1 in Hw, EW.
+  assert (W1 : 0 + v1 * 1 = blen body - extra) by congruence.
+  assert (W2 : r1 = firstn (5 - length pre) rest) by congruence.
+  assert (W3 : 0 + v2 * 1 = blen body - extra) by congruence.
+  assert (W4 : r2 = r') by congruence.
+  subst r1 r2. clear Hw EW.
+  assert (v1 = v2) by lia. subst v2.
+  assert (Hr : length (firstn (5 - length pre) rest) = (5 - length pre)%nat).
+  { rewrite firstn_length. rewrite app_length in Hlen5. lia. }
+  assert (Hr' : length r' = (5 - length pre)%nat).
+  { unfold blen in Hn. pose proof (uvv_len _ _ _ _ U2) as Q. rewrite alter_length, Hwlen in Q. lia. }
+  pose proof (uvv_inj 10 w (alter pos b w) v1 _ _ Hwok (alter_bytes_ok pos b w Hwok Hb) U1 U2) as INJ.
+  rewrite alter_length, Hwlen, Hr, Hr' in INJ. specialize (INJ eq_refl).
+  assert (Hk : (pos < 5 - (5 - length pre))%nat) by lia.
+  pose proof (firstn_nth_eq _ _ _ pos INJ Hk) as Hnth.
+  rewrite nth_alter_same in Hnth by lia.
+  apply Hne. rewrite <- Hnth. unfold w.
+  rewrite nth_firstn_lt by lia. rewrite app_nth1 by exact Hpos. reflexivity.
+Qed.
+End Prefix.
+
+Section PrefixMain.
+Variable crc : list N -> N.
+
+Theorem chunk_length_prefix_partial enc data pre suf pos b r :
+  blen data < two35 -> bytes_ok (enc :: data) -> bytes_ok suf -> b < 256 ->
+  (pos < length (put_uvarint (blen data)))%nat -> nth pos (put_uvarint (blen data)) 0 <> b ->
+  let file' := alter (length pre + pos) b (pre ++ enc_chunk_record crc enc data ++ suf) in
+  chunk_at crc file' (blen pre) = ROk r ->
+  exists l' n', uvarint5 file' (blen pre) = Some (l', n') /\
+                (l', n') <> (blen data, blen (put_uvarint (blen data))).
+Proof.
+  intros Hl Hok Hs Hb Hpos Hne file' Hr. unfold file' in *. clear file'.
+  rewrite chunk_at_framed in Hr.
+  assert (EF : enc_chunk_record crc enc data = frame crc 1 (enc :: data)).
+  { unfold enc_chunk_record, frame. rewrite blen_cons.
+    replace (1 + blen data - 1) with (blen data) by lia. reflexivity. }
+  rewrite EF in *.
+  match type of Hr with context [framed_at crc 1 ?f (blen pre)] =>
+    destruct (framed_at crc 1 f (blen pre)) as [d|e] eqn:E end; [|discriminate].
+  assert (H1 : blen (enc :: data) - 1 = blen data) by (rewrite blen_cons; lia).
+  pose proof (framed_at_alter_prefix crc 1 (enc :: data) pre suf pos b d) as P.
+  cbv zeta in P. rewrite H1 in P.
+  apply P; [rewrite blen_cons; lia | exact Hl | exact Hok | exact Hs | exact Hb | exact Hpos | exact Hne | exact E].
+Qed.
+
+Theorem series_length_prefix_partial syms content pre suf id pos b r :
+  blen content < two35 -> bytes_ok content -> bytes_ok suf -> b < 256 ->
+  blen pre = id * 16 ->
+  (pos < length (put_uvarint (blen content)))%nat -> nth pos (put_uvarint (blen content)) 0 <> b ->
+  let file' := alter (length pre + pos) b (pre ++ frame_uvarint crc content ++ suf) in
+  series_at crc syms file' id = ROk r ->
+  exists l' n', uvarint5 file' (blen pre) = Some (l', n') /\
+                (l', n') <> (blen content, blen (put_uvarint (blen content))).
+Proof.
+  intros Hl Hok Hs Hb Hp Hpos Hne file' Hr. unfold file' in *. clear file'.
+  unfold series_at in Hr. rewrite <- Hp in Hr. rewrite decbuf_uvarint_at_framed in Hr.
+  assert (EF : frame_uvarint crc content = frame crc 0 content)
+    by (unfold frame_uvarint, frame; rewrite N.sub_0_r; reflexivity).
+  rewrite EF in *.
+  match type of Hr with context [framed_at crc 0 ?f (blen pre)] =>
+    destruct (framed_at crc 0 f (blen pre)) as [d|e] eqn:E end; [|discriminate].
+  pose proof (framed_at_alter_prefix crc 0 content pre suf pos b d) as P.
+  cbv zeta in P. rewrite N.sub_0_r in P.
+  apply P; [lia | exact Hl | exact Hok | exact Hs | exact Hb | exact Hpos | exact Hne | exact E].
+Qed.
+End PrefixMain.
